@@ -418,6 +418,21 @@ def r4_saved_position(ctx, rule):
                     'the session state must be saved before the run stops on a quit', None, q)
         else:
             ctx.ok(rule, rq, '_save_session() precedes the exit on the quit branch')
+    # exhaustion: a quit requested during the last pre-terminal is never seen at a boundary; the final position must be saved
+    ex = [n for n in walk_local(rfn) if isinstance(n, ast.If) and U(n.test) in ('pt_item is None', 'not pt_item', 'pt_item == None')]
+    if not ex:
+        ctx.unk(rule, rq, 'exhaustion test (pt_item is None) not found in run()')
+    else:
+        b = ex[0].body
+        sv = [k for k, s_ in enumerate(b) if isinstance(s_, ast.Expr) and isinstance(s_.value, ast.Call) and call_name(s_.value) == 'self._save_session']
+        xt = [k for k, s_ in enumerate(b) if isinstance(s_, (ast.Return, ast.Break))]
+        if sv and xt and sv[0] < xt[0]:
+            ctx.ok(rule, rq, 'the final position is saved when the grammar is exhausted')
+        else:
+            ctx.bad(rule, rq, 'run() returns on exhaustion without saving',
+                    'a quit requested while the last pre-terminal is expanded is never noticed at a boundary; if the session is '
+                    'not saved then, the save file still describes an earlier position and --load repeats everything after it',
+                    None, ex[0])
     # _save_session reaches the queue's update_save_config which writes max_probability, and writes the file
     sq = CS + '_save_session'
     sfn = ctx.fn(sq)
